@@ -27,6 +27,8 @@ def run(ctx, rep):
                             f"{kind}() with {sorted(S)} raising leaves the library file open",
                             {"kind": "vector", "session": kind, "faults": sorted(S)})
     ok, out, where = vlib.build_props(ctx, rep, "C04")
+    import ukv_common as _U
+    tstatus, tok, tout, twhere = _U.code_tie(ctx, rep)      # the translated begin_read/begin_write/end_*/flush/put/get and UKVFile methods = the model
     # ---- real processes
     nproc = 3 if ctx.thorough else 2
     W = c04_mp.Workers(ctx, max(nproc, 6 if ctx.thorough else 4))
@@ -138,6 +140,9 @@ def run(ctx, rep):
         h, cfg = hmeta[hbad[0]]
         rep.violate("broken:corr_c04hist", f"backend model and implementation disagree on {len(hbad)} session histories (first: cfg={cfg} {[_ser(o) for o in h][:12]}) "
                     "but the oracle finds no property violation on them", {"kind": "sessions", "cfg": cfg, "ops": [_ser(o) for o in h], "obligation": "corr_c04hist"}, no_input=True)
+    if not tok:
+        vlib.broken_obligation(rep, "Props/C02code.v|C02bcode.v", "the translation of molli/storage/ukvfile.py / backends.py no longer refines the model "
+                               f"(what a session does to the file is Model/UKV.v + Model/Backend.v): {twhere}\n{tout[-1500:]}", bool(rep.violations))
     if not ok:
         vlib.broken_obligation(rep, "Props/C04.v", (f"AST extractor refused: {refusal}\n" if refusal else "") + f"{where}\n{out[-1500:]}",
                                bool(rep.violations))
